@@ -134,6 +134,7 @@ type Anchors struct {
 	DeferRunner                        *FuncBody
 	BodyTail                           []*FuncBody // functions of the package the body closure hands its command loop to
 	LoopFn                             *FuncBody   // the function that contains the cmds loop: the body closure, or its tail
+	semParams                          map[*types.Var]bool
 	StatusOnError, Mkdir               *FuncBody
 	Acquire, Release                   *FuncBody
 	HandleDynamicVar                   *FuncBody
@@ -455,11 +456,11 @@ func (a *Anchors) semOps(body ast.Node, info *types.Info, depth int) []string {
 	inspectBody(body, func(n ast.Node) bool {
 		switch x := n.(type) {
 		case *ast.SendStmt:
-			if fieldSel(info, x.Chan, PkgTask, "Executor", "concurrencySemaphore") {
+			if a.isSem(info, x.Chan) {
 				ops = append(ops, "send")
 			}
 		case *ast.UnaryExpr:
-			if x.Op == token.ARROW && fieldSel(info, x.X, PkgTask, "Executor", "concurrencySemaphore") {
+			if x.Op == token.ARROW && a.isSem(info, x.X) {
 				ops = append(ops, "recv")
 			}
 		case *ast.CallExpr:
@@ -604,4 +605,51 @@ func (a *Anchors) isTailCall(info *types.Info, call *ast.CallExpr) bool {
 		}
 	}
 	return false
+}
+
+// isSem: the expression denotes the concurrency semaphore — the Executor field, or a channel parameter of a function of
+// package task that every one of its call sites binds to that field (slot helpers that take the semaphore as an argument).
+func (a *Anchors) isSem(info *types.Info, e ast.Expr) bool {
+	if fieldSel(info, e, PkgTask, "Executor", "concurrencySemaphore") {
+		return true
+	}
+	v := varOf(info, e)
+	if v == nil {
+		return false
+	}
+	if a.semParams == nil {
+		a.semParams = map[*types.Var]bool{}
+		for _, fb := range a.P.BodiesIn(PkgTask) {
+			if fb.Decl == nil || fb.Obj == nil || fb.Type.Params == nil {
+				continue
+			}
+			finfo := fb.Info()
+			idx := 0
+			for _, fld := range fb.Type.Params.List {
+				for _, id := range fld.Names {
+					pv, _ := finfo.Defs[id].(*types.Var)
+					if pv != nil {
+						if _, isChan := pv.Type().Underlying().(*types.Chan); isChan {
+							all, n := true, 0
+							for _, cb := range a.P.BodiesIn(PkgTask) {
+								for _, call := range callsIn(cb, false) {
+									if fn, ok := callee(cb.Info(), call).(*types.Func); ok && fn == fb.Obj {
+										n++
+										if idx >= len(call.Args) || !fieldSel(cb.Info(), call.Args[idx], PkgTask, "Executor", "concurrencySemaphore") {
+											all = false
+										}
+									}
+								}
+							}
+							if all && n > 0 {
+								a.semParams[pv] = true
+							}
+						}
+					}
+					idx++
+				}
+			}
+		}
+	}
+	return a.semParams[v]
 }
